@@ -21,9 +21,9 @@ import z3
 from pyvc import sym
 
 BACKENDS = [
-    ('z3-ematch', ['z3-new', 'smt.mbqi=false', 'smt.auto_config=false'], 3),
-    ('z3-default', ['z3-new'], 10),
-    ('cvc5', ['/usr/bin/cvc5', '--lang=smt2'], 10),
+    ('z3-ematch', ['z3-new', 'smt.mbqi=false', 'smt.auto_config=false'], 2),
+    ('z3-default', ['z3-new'], 6),
+    ('cvc5', ['/usr/bin/cvc5', '--lang=smt2'], 6),
 ]
 THOROUGH_EXTRA = [('z3-old', ['/usr/bin/z3'], 20)]
 THOROUGH_FACTOR = 3
@@ -86,7 +86,7 @@ def discharge_one(job):
   try:
     backends = BACKENDS + (THOROUGH_EXTRA if thorough else [])
     if len(job) > 5 and job[5]:
-      backends = [('z3-default', ['z3-new'], 30), ('cvc5', BACKENDS[2][1], 20)]
+      backends = [('z3-default', ['z3-new'], 25), ('cvc5', BACKENDS[2][1], 15)]
       thorough = False
     if canary:
       # must-NOT-be-provable checks: a short attempt is all that is needed
@@ -133,7 +133,7 @@ def discharge_all(jobs, workers=None):
   return out
 
 
-MAX_RETRY = 12
+MAX_RETRY = 6
 
 
 def get_model(hyps, goal, timeout_ms=10000):
